@@ -181,6 +181,9 @@ class Engine(TorchDispatchMode):
         self.strict_crosscheck = True
         self.item_whitelist = ()
         self.mismatches = 0
+        self.stub_log = []
+        self.track_constants = True
+        self.registered_svd = []
 
     # ------------------------------------------------------------ storage model
     @staticmethod
@@ -234,6 +237,22 @@ class Engine(TorchDispatchMode):
         self.store[self.key(t)] = buf
         self.keep.append(t)
 
+    def promote(self, t):
+        """give a concrete tensor's storage a symbolic buffer holding its current concrete content"""
+        nel = max(t.untyped_storage().nbytes() // t.element_size(), 1)
+        with _disable_current_modes():
+            flat = torch.empty(0, dtype=t.dtype).set_(t.untyped_storage(), 0, (nel,), (1,))
+            vals = flat.tolist()
+        sort = sort_of_dtype(t.dtype)
+        buf = np.empty(nel, dtype=object)
+        for i, v in enumerate(vals):
+            try:
+                buf[i] = T.const(v, sort)
+            except T.NonFinite:
+                buf[i] = self.fresh_var("nonfinite", sort, 0.0)
+        self.store[self.key(t)] = buf
+        self.keep.append(t)
+
     def new(self, t, vals):
         """bind a fresh output tensor to symbolic values"""
         self.alloc(t)
@@ -250,9 +269,9 @@ class Engine(TorchDispatchMode):
     def write(self, t, vals, site="?"):
         """in-place / out= write through the view"""
         if not self.has(t):
-            # promote concrete buffer: lift its *pre-write* content is unknowable now (the real kernel already ran);
-            # a full overwrite does not need it, a partial one does -> handled by callers passing full arrays
-            self.alloc(t)
+            # promote the concrete buffer: the real kernel already ran, but it only touched the written region, so
+            # lifting the WHOLE storage now gives the right content everywhere else (the region is overwritten below)
+            self.promote(t)
         sort = sort_of_dtype(t.dtype)
         vals = u_coerce(np.array(as_obj(vals), dtype=object, copy=True), sort)
         shape = tuple(t.shape)
@@ -535,6 +554,12 @@ class Engine(TorchDispatchMode):
             if not cond:
                 raise PathAbort("undefined in R: " + why)
             return
+        try:
+            ok = T.evalf([cond], self.env)[0]
+        except KeyError:
+            ok = True
+        if not ok:
+            raise PathAbort("witness point lies outside the domain of definition: " + why)
         self.defined.append(cond)
 
     # ------------------------------------------------------------ dispatch
